@@ -2,6 +2,7 @@
 package check
 
 import (
+	"luahelper-lsp/langserver/check/common"
 	"luahelper-lsp/langserver/check/compiler/ast"
 	"luahelper-lsp/langserver/check/compiler/lexer"
 	"strconv"
@@ -386,6 +387,18 @@ func VerifRun_C20() {
 			t[i] = decd
 		}
 	}
+	// one of the pattern checks may be switched off by the user: exactly that type's diagnostics disappear,
+	// the others stay where they are
+	c20types := []int{5, 7, 8, 13, 14, 15, 16, 19, 20, 21}
+	off := 0
+	if oi := verifConcretize(verifRange("off", 0, len(c20types))); oi > 0 {
+		off = c20types[oi-1]
+		flags := make([]bool, 26)
+		for i := range flags {
+			flags[i] = i != off
+		}
+		common.GConfig.HandleChangeCheckList(flags, nil, nil)
+	}
 	file := "/w/a.lua"
 	p20, fs := vpProject([]string{file}, [][]byte{t})
 	// the published set (after de-duplication) must keep every diagnostic that differs from the others in
@@ -440,6 +453,12 @@ func VerifRun_C20() {
 				if w.typ == typ && w.line == line {
 					nw++
 				}
+			}
+			if typ == off {
+				if ng > 0 {
+					verifViolation("", "type "+strconv.Itoa(typ)+": reported although the check is switched off")
+				}
+				continue
 			}
 			if ng < nw {
 				verifViolation("", "type "+strconv.Itoa(typ)+": an occurrence of the documented pattern is not reported")
